@@ -535,6 +535,13 @@ func quantifyNode(n Node, q any) Node {
 	// Range repetition
 	case tuple[int, *int]:
 		low, up := rep.p, rep.q
+
+		// An invalid range has been reported as an error and the result is going to be discarded.
+		// Its lower bound can be arbitrarily large: the operand is not repeated more often than the upper bound says.
+		if up != nil && low > *up {
+			low = *up
+		}
+
 		concat := new(Concat)
 
 		for i := 0; i < low; i++ {
